@@ -4,6 +4,7 @@ import (
 	"encoding/json"
 	"fmt"
 	"math"
+	"math/big"
 	"reflect"
 	"strings"
 
@@ -31,7 +32,7 @@ var c15Words = []string{"ab", "cd", "efg", "Ab"}
 
 func newWorld() *c15World {
 	x := &c15World{}
-	x.reqBack = []string{"a", "xy"}
+	x.reqBack = []string{"a", "", "xy"}
 	x.reqOn = true
 	x.c = spg.CharRecipe{Length: 2, AllowChars: "abc", RequireSets: x.reqBack}
 	x.words = append([]string{}, c15Words...)
@@ -304,7 +305,191 @@ func c15Seq(c *core.Ctx, ops []c15Op, seq []int) bool {
 	return true
 }
 
+// ---------- part B: ordered pairs of confusable recipes ----------
+//
+// A result must not depend on which OTHER recipe was used before. The pool
+// holds recipes that differ only in how the same characters are split over
+// fields or strings (the classic ways an incomplete cache key collides); for
+// every ordered pair (A, B) all queries run on A and then on B in the same
+// process, and B's answers are checked against the reference model.
+
+func c15CharPool() []ref.CharRecipe {
+	var pool []ref.CharRecipe
+	add := func(r ref.CharRecipe) {
+		for _, L := range []int{2, 3} {
+			r.Length = L
+			pool = append(pool, r)
+		}
+	}
+	for _, rq := range [][]string{{"ab", "c"}, {"a", "bc"}, {"abc"}, {"a", "b", "c"}, {"c", "ab"}} {
+		add(ref.CharRecipe{AllowChars: "abcd", RequireSets: rq})
+	}
+	for _, sep := range []string{",", " ", "|", ";", "\x00", "/"} {
+		add(ref.CharRecipe{AllowChars: "z", RequireSets: []string{"x" + sep + "y"}})
+		add(ref.CharRecipe{AllowChars: "z", RequireSets: []string{"x", sep + "y"}})
+	}
+	add(ref.CharRecipe{AllowChars: "z", RequireSets: []string{"x", "y"}})
+	add(ref.CharRecipe{AllowChars: "ab", ExcludeChars: "c"})
+	add(ref.CharRecipe{AllowChars: "abc"})
+	add(ref.CharRecipe{AllowChars: "a", ExcludeChars: "bc"})
+	add(ref.CharRecipe{AllowChars: "abc", ExcludeChars: "c"})
+	add(ref.CharRecipe{AllowChars: "abc", RequireSets: []string{"c"}})
+	add(ref.CharRecipe{Allow: ref.Digits, Require: ref.Symbols})
+	add(ref.CharRecipe{Allow: ref.Symbols, Require: ref.Digits})
+	add(ref.CharRecipe{Allow: ref.Digits | ref.Symbols})
+	add(ref.CharRecipe{Allow: ref.Digits, Exclude: ref.Ambiguous})
+	add(ref.CharRecipe{Allow: ref.Digits | ref.Ambiguous})
+	add(ref.CharRecipe{Allow: ref.Digits, Exclude: ref.Symbols})
+	add(ref.CharRecipe{Allow: 1, Require: 23})
+	add(ref.CharRecipe{Allow: 12, Require: 3})
+	add(ref.CharRecipe{Allow: ref.Digits, AllowChars: "0", RequireSets: []string{"1"}})
+	add(ref.CharRecipe{Allow: ref.Digits, AllowChars: "01"})
+	// same concatenation, opposite sides of the refusal threshold
+	pool = append(pool, ref.CharRecipe{Length: 2, Allow: ref.Lowers, RequireSets: []string{"x", "y"}}, ref.CharRecipe{Length: 2, Allow: ref.Lowers, RequireSets: []string{"xy"}},
+		ref.CharRecipe{Length: 2, Allow: ref.Lowers, RequireSets: []string{"xy", ""}})
+	return pool
+}
+
+// checkCharAgainstModel runs every query of a character recipe and compares with the model.
+func checkCharAgainstModel(r ref.CharRecipe) string {
+	sr := toSpg(r)
+	install(tape.New(&tape.Script{}))
+	if got, want := safe(func() string { return sr.Alphabet() }), strings.Join(r.Alphabet(), ""); got != want {
+		return fmt.Sprintf("Alphabet() = %q, want %q", got, want)
+	}
+	cnt := r.Count()
+	ab := r.Alphabet()
+	if !r.EmptiedReq() && cnt.Sign() > 0 {
+		e := float64(sr.Entropy())
+		if want := ref.Log2Big(cnt); math.IsNaN(e) || math.Abs(e-want) > 2*ref.Ulp32(want) {
+			return fmt.Sprintf("Entropy() = %v, want %v", e, want)
+		}
+		num, _ := new(big.Float).SetInt(cnt).Float64()
+		p := num / math.Pow(float64(len(ab)), float64(r.Length))
+		if sp := float64(sr.SuccessProbability()); math.Abs(sp-p) > 1e-4 {
+			return fmt.Sprintf("SuccessProbability() = %v, want %v", sp, p)
+		}
+		if math.Pow(1-p, 200) > 1e-8 {
+			t := policyTape(func(b uint32, i int) uint32 { return 0 })
+			install(t)
+			if out := runGen(sr.Generate); out.HasPw || t.Words != 0 {
+				return fmt.Sprintf("Generate did not refuse a recipe whose %d attempts all fail with probability %.3g", 200, math.Pow(1-p, 200))
+			}
+		}
+		if math.Pow(1-p, 200) < 1e-10 {
+			good := validIndices(r, ab)
+			t := policyTape(func(b uint32, i int) uint32 {
+				if int(b) == len(ab) {
+					return uint32(good[i%len(good)])
+				}
+				return 0
+			})
+			install(t)
+			out := runGen(sr.Generate)
+			if !out.HasPw {
+				return "Generate failed: " + out.Err + out.Panic
+			}
+			abSet := map[string]bool{}
+			for _, ch := range ab {
+				abSet[ch] = true
+			}
+			if msg := c03Check(r, out, abSet); msg != "" {
+				return "Generate: " + msg
+			}
+		}
+	}
+	return ""
+}
+
+func c15Pairs(c *core.Ctx) {
+	pool := c15CharPool()
+	for i, a := range pool {
+		for j, b := range pool {
+			if i == j || !c.Mine() {
+				continue
+			}
+			checkCharAgainstModel(a)
+			c.Count("executions", 8)
+			c.Count("pairs_checked", 1)
+			if msg := checkCharAgainstModel(b); msg != "" {
+				c.Violation("pair char", fmt.Sprintf("after the queries on recipe %s, recipe %s answers wrongly: %s", mustJSON(recipeLit(a)), mustJSON(recipeLit(b)), msg),
+					map[string]interface{}{"first": recipeLit(a), "second": recipeLit(b)})
+				return
+			}
+		}
+	}
+	// wordlist recipes sharing one *WordList (and, for a second list of the
+	// same size, nothing but the size)
+	words := []string{"ab", "cd", "efg"}
+	wl, _ := spg.NewWordList(append([]string{}, words...))
+	words2 := []string{"ab", "Cd", "efg"} // same size, one uncapitalisable word
+	wl2, _ := spg.NewWordList(append([]string{}, words2...))
+	type wr struct {
+		w WLCase
+		r *spg.WLRecipe
+	}
+	var wpool []wr
+	for li, l := range []*spg.WordList{wl, wl2} {
+		ws := [][]string{words, words2}[li]
+		for _, L := range []int{2, 3} {
+			for _, cp := range []string{"none", "random", "one"} {
+				for _, sp := range []Sep{{Kind: "none"}, {Kind: "char", Char: "-"}, {Kind: "SFDigits1"}, {Kind: "SFDigits2"}, {Kind: "SFSymbols"}, {Kind: "SFDigitsNoAmbiguous1"},
+					{Kind: "sf", Recipe: &ref.CharRecipe{Length: 1, AllowChars: "xy"}}, {Kind: "sf", Recipe: &ref.CharRecipe{Length: 1, AllowChars: "xyz"}}} {
+					w := WLCase{Words: ws, Length: L, Cap: cp, Sep: sp}
+					r := spg.NewWLRecipe(L, l)
+					r.Capitalize = spg.CapScheme(cp)
+					switch sp.Kind {
+					case "none":
+					case "char":
+						r.SeparatorChar = sp.Char
+					case "sf":
+						r.SeparatorFunc = spg.NewSFFunction(toSpg(*sp.Recipe))
+					default:
+						r.SeparatorFunc = presetFuncs[sp.Kind]
+					}
+					wpool = append(wpool, wr{w, r})
+				}
+			}
+		}
+	}
+	use := func(x wr) string {
+		install(policyTape(c15Tapes[0]))
+		e := float64(x.r.Entropy())
+		if want := x.w.entropyModel(); math.IsNaN(e) || math.Abs(e-want) > 4*ref.Ulp32(want) {
+			return fmt.Sprintf("Entropy() = %v, want %v", e, want)
+		}
+		install(policyTape(c15Tapes[1]))
+		out := runGen(x.r.Generate)
+		if !out.HasPw {
+			return "Generate failed: " + out.Err + out.Panic
+		}
+		if msg := c05Leaf(x.w, out); msg != "" {
+			return "Generate: " + msg
+		}
+		if math.Float32bits(out.Entropy) != math.Float32bits(float32(e)) {
+			return fmt.Sprintf("Password.Entropy %v differs from Entropy() %v", out.Entropy, e)
+		}
+		return ""
+	}
+	for i, a := range wpool {
+		for j, b := range wpool {
+			if i == j || !c.Mine() {
+				continue
+			}
+			use(a)
+			c.Count("executions", 4)
+			c.Count("pairs_checked", 1)
+			if msg := use(b); msg != "" {
+				c.Violation("pair wordlist", fmt.Sprintf("after using recipe %s, recipe %s (same word list object: %v) answers wrongly: %s", mustJSON(a.w), mustJSON(b.w), a.r.Size() == b.r.Size(), msg),
+					map[string]interface{}{"first_wl": a.w, "second_wl": b.w})
+				return
+			}
+		}
+	}
+}
+
 func c15Run(c *core.Ctx) {
+	c15Pairs(c)
 	ops := c15Ops()
 	depth := 4
 	if c.Thorough() {
@@ -351,7 +536,7 @@ func init() {
 		Level: "model_checking",
 		Build: "inst",
 		Rule: "every sequence of length <=4 (thorough <=5) over 18 operations - 9 queries (Generate/Entropy/Alphabet/SuccessProbability on a character recipe, Generate/Entropy on a wordlist recipe, the preset SFDigits1 and a constructed separator function, each with a fixed scripted random stream) and 9 caller-side updates (lengths, class flags, exclude string, in-place edit of the RequireSets slice, nil/slice, capitalisation, separator function and character) - run on live values; after every query: caller-visible state deep-equal to the snapshot before it, result and bytes consumed equal to the same call on freshly built values with the same public fields, and consistent with the reference model evaluated on the current fields; " +
-			"states = sequences; non-trivial = distinct (query, result) pairs",
+			"part B: all ordered pairs of ~70 character recipes and 96 wordlist recipes that differ only in how the same characters are split over fields/strings or that share a word list object (queries on A, then B checked against the model); states = sequences; non-trivial = distinct (query, result) pairs",
 		Assume:    []string{"map ranges take the canonical order in the instrumented build, so a freshly built word list has the same word order", "no state deduplication: closures hide state that cannot be hashed soundly"},
 		Run:       c15Run,
 		StatesKey: "sequences", TransKey: "executions",
